@@ -31,6 +31,8 @@ var redirect = map[string]string{
 	// blocking synchronisation becomes a visible wait under the cooperative scheduler and stays the
 	// real thing on free-running goroutines (shim/vsync)
 	"sync": shimBase + "vsync",
+	// atomic operations are scheduling points under the cooperative scheduler (shim/vatomic)
+	"sync/atomic": shimBase + "vatomic",
 }
 
 var forbidden = map[string]bool{
@@ -218,7 +220,7 @@ func Bind(o Options) (string, *Report, error) {
 	for _, e := range o.Exports {
 		overlay[filepath.Join(o.Repo, "zz_verif_"+e)] = filepath.Join(o.Verif, "shim", "export", e)
 	}
-	for _, s := range []string{"rt", "vos", "vioutil", "vtime", "vrand", "vsync"} {
+	for _, s := range []string{"rt", "vos", "vioutil", "vtime", "vrand", "vsync", "vatomic"} {
 		overlay[filepath.Join(o.Repo, "zz_verif", s, s+".go")] = filepath.Join(o.Verif, "shim", s, s+".go")
 	}
 	for k, v := range o.Extra {
